@@ -4,7 +4,7 @@
    Decode of pkg/trie/triedb/codec), tied to the Go code by props/C07. *)
 From Common Require Import Bytes Outcome Blake2b.
 From TrieCodec Require Import Codec View Dencode ProofsBasic ProofsHeader ProofsDecode ProofsTotal.
-From C07 Require Import Model Proofs.
+From C07 Require Import Model Gen Proofs.
 Local Open Scope N_scope.
 
 (* Every well-formed in-memory node — leaf or branch, with or without a value, inline value or a
@@ -67,6 +67,14 @@ Theorem C07_header_roundtrip :
   decode_header (encode_header v l ++ rest) = Ok (v, l, rest).
 Proof. exact decode_header_encode. Qed.
 Print Assumptions C07_header_roundtrip.
+
+(* the same with the bound read from the Go source on every run (maxPartialKeyLength = ^uint16(0),
+   regenerated into Gen.v): a changed constant breaks this statement's proof or the Examples in Proofs.v *)
+Theorem C07_header_roundtrip_gen :
+  forall v l rest, node_variant v = true -> (Z.of_N l <= Gen.max_partial_key_length)%Z ->
+  decode_header (encode_header v l ++ rest) = Ok (v, l, rest).
+Proof. exact header_roundtrip_gen. Qed.
+Print Assumptions C07_header_roundtrip_gen.
 
 (* the partial key: nibbles -> packed bytes -> nibbles, odd and even lengths *)
 Theorem C07_key_roundtrip :
